@@ -13,8 +13,8 @@ import (
 func init() {
 	register(Property{ID: "C14", Level: "other", Run: runC14,
 		Technique: "static analysis: must-pass-through path conditions and loop-shape rules on the SSA of conf.FindPathConf, exhaustive path enumeration of its sort comparator, who-may table of regexp matches on conf.Path.Regexp over the whole module",
-		Text: "Decides on conf.FindPathConf: the exact-name lookup is tested first and shadows every other outcome; the regexp branch is reached only for valid names; the map range that collects candidates has no effect besides appending configurations with Regexp != nil to a local slice (no return, call or break: map order cannot leak); that slice is sorted before the first match is attempted and is not modified afterwards; the comparator, on every path, puts all/all_others last and otherwise orders by Name ascending; the match loop runs from index 0 upwards and returns the first element whose Regexp.FindStringSubmatch(name) is non-nil together with that very result; any other exit is an error. Across the module only FindPathConf (and the recording-directory lister) match names against conf.Path.Regexp; and no caller of FindPathConf remembers a result (configuration, capture groups or a value read from them) in a field, map or package variable that survives a replacement of the configuration set it was computed from - except the fields of a live path, which the path manager re-resolves on every reload (C15) - so the server's effective resolution is FindPathConf on the current set and does not depend on earlier lookups. Does not decide regexp semantics nor sort.Slice, nor retention through interfaces/reflection or inside functions that are not new helpers.",
-		Note: "trusted: sort.Slice sorts by the comparator, regexp semantics; configuration names are unique map keys and at most one of all/all_others/~^.*$ exists (Conf.Validate)"})
+		Text:      "Decides on conf.FindPathConf: the exact-name lookup is tested first and shadows every other outcome; the regexp branch is reached only for valid names; the map range that collects candidates has no effect besides appending configurations with Regexp != nil to a local slice (no return, call or break: map order cannot leak); that slice is sorted before the first match is attempted and is not modified afterwards; the comparator, on every path, puts all/all_others last and otherwise orders by Name ascending; the match loop runs from index 0 upwards and returns the first element whose Regexp.FindStringSubmatch(name) is non-nil together with that very result; any other exit is an error. Across the module only FindPathConf (and the recording-directory lister) match names against conf.Path.Regexp; and no caller of FindPathConf remembers a result (configuration, capture groups or a value read from them) in a field, map or package variable that survives a replacement of the configuration set it was computed from - except the fields of a live path, which the path manager re-resolves on every reload (C15) - so the server's effective resolution is FindPathConf on the current set and does not depend on earlier lookups. Does not decide regexp semantics nor sort.Slice, nor retention through interfaces/reflection or inside functions that are not new helpers.",
+		Note:      "trusted: sort.Slice sorts by the comparator, regexp semantics; configuration names are unique map keys and at most one of all/all_others/~^.*$ exists (Conf.Validate)"})
 	addMutants(
 		Mutant{"C14", "drop-sort", "internal/conf/path.go",
 			"	sort.Slice(regexpPathConfs, func(i, j int) bool {\n		// keep all and all_others at the end\n		if regexpPathConfs[i].Name == \"all\" || regexpPathConfs[i].Name == \"all_others\" {\n			return false\n		}\n		if regexpPathConfs[j].Name == \"all\" || regexpPathConfs[j].Name == \"all_others\" {\n			return true\n		}\n		return regexpPathConfs[i].Name < regexpPathConfs[j].Name\n	})\n",
@@ -270,7 +270,7 @@ func runC14(c *Ctx) {
 
 	// ---- who matches
 	allowed := map[string]string{
-		"internal/conf.FindPathConf": "the resolver",
+		"internal/conf.FindPathConf":                             "the resolver",
 		"internal/recordstore.regexpPathFindPathsWithSegments$1": "lists recorded names that a regexp configuration matches (does not pick a configuration; callers resolve through FindPathConf)",
 	}
 	n := 0
